@@ -72,7 +72,7 @@ func genLargeCfg(t *rapid.T, kind string) PCfg {
 		}
 	}
 	c.BlockSize = rapid.SampledFrom([]int{0, 4096, 65535, 65536, 131072, 1000, 33_000, 131073, 200_000, 262144, 1 << 20}).Draw(t, "blk")
-	if !sa && rapid.IntRange(0, 2).Draw(t, "bigBlocks") == 0 {
+	if !sa && rapid.IntRange(0, 4).Draw(t, "bigBlocks") < 2 {
 		// blocks beyond the default 128 KiB need a buffer that holds them
 		c.BlockSize = rapid.SampledFrom([]int{131072, 131073, 200_000, 262144, 1 << 20, 0}).Draw(t, "blkBig")
 		c.BufferSize = rapid.SampledFrom([]int{0, 0, 300_000, 524288, 1 << 20}).Draw(t, "bufBig")
@@ -123,13 +123,17 @@ func genLargeCfg(t *rapid.T, kind string) PCfg {
 // a generated base text repeated with point mutations, interleaved with
 // stretches of pseudo-random bytes (a linear congruential sequence seeded by a
 // draw - no randomness outside of rapid).
-func largeStream(t *rapid.T, total int) []byte {
+func largeStream(t *rapid.T, total int) []byte { return largeStreamOpt(t, total, 3) }
+
+// incompressibleOf: one in (incompressibleOf+1) streams is a short
+// compressible head followed by pseudo-random bytes.
+func largeStreamOpt(t *rapid.T, total, incompressibleOf int) []byte {
 	base := genText(t, "base", 3000)
 	if len(base) == 0 {
 		base = []byte{0}
 	}
 	seed := uint32(rapid.IntRange(0, 1<<30).Draw(t, "lcgSeed"))
-	if rapid.IntRange(0, 3).Draw(t, "incompressible") == 0 {
+	if rapid.IntRange(0, incompressibleOf).Draw(t, "incompressible") == 0 {
 		// a short compressible head, then pseudo-random bytes over all 256
 		// values: hundreds of kilobytes without a match for the parsers
 		// that hash 4 or more bytes, literal-only blocks, long tails behind
@@ -220,6 +224,10 @@ func genLargeHistory(t *rapid.T, x *parserExec, parseNil bool) {
 	var stream []byte
 	if cc.BlockSize > miB && cc.BufferSize >= 4*miB {
 		stream = giantStream(t)
+	} else if cc.BlockSize > 131072 && !sa {
+		// blocks beyond 128 KiB: hundreds of kilobytes without a match in
+		// one block in half of the cases
+		stream = largeStreamOpt(t, total, 1)
 	} else {
 		stream = largeStream(t, total)
 	}
@@ -243,7 +251,8 @@ func genLargeHistory(t *rapid.T, x *parserExec, parseNil bool) {
 			n = 0 // a buffer that holds more than BufferSize (reported by C15) leaves no room
 		}
 		before := len(x.fed)
-		if rapid.Bool().Draw(t, "viaReader") {
+		nearPow := cc.BufferSize&(cc.BufferSize-8) < 8 || (cc.BufferSize-1)&(cc.BufferSize-9) < 8 // a few bytes above a power of two
+		if rapid.Bool().Draw(t, "viaReader") || (nearPow && rapid.Bool().Draw(t, "viaReaderNearPow")) {
 			rs := ReaderScript{Data: stream[pos : pos+n]}
 			ne := rapid.IntRange(0, 4).Draw(t, "nev")
 			for i := 0; i < ne; i++ {
@@ -301,6 +310,7 @@ func largeProp(t *testing.T, prop string) {
 		kind := kind
 		t.Run(kind, func(t *testing.T) {
 			rapid.Check(t, func(t *rapid.T) {
+				decorrelate(t, kind)
 				if (kind == "GSAP" || kind == "OSAP") && rapid.IntRange(0, 2).Draw(t, "thin") > 0 {
 					// a large case of the suffix array parsers costs ten
 					// times one of the hash parsers: a third of the count
@@ -364,6 +374,7 @@ func TestC08Large(t *testing.T) {
 		kind := kind
 		t.Run(kind, func(t *testing.T) {
 			rapid.Check(t, func(t *rapid.T) {
+				decorrelate(t, kind)
 				cfg := genLargeCfg(t, kind)
 				sa := kind == "GSAP" || kind == "OSAP"
 				total := 300_000 - 15_000*rapid.IntRange(0, 19).Draw(t, "total")
